@@ -169,3 +169,7 @@ func errClass(err error, panicked any) string {
 	}
 	return "ok"
 }
+
+func jsonUnmarshal(s string, v any) error { return json.Unmarshal([]byte(s), v) }
+func vhHex(b []byte) string                { return vh.Hex(b) }
+func vhUnHex(s string) []byte              { return vh.UnHex(s) }
